@@ -238,11 +238,15 @@ class Prog:
             except Exception as e:      # noqa: B902
                 w.log('write-error', self.tid, self.txn, st[1],
                       type(e).__name__)
-        elif k == 'rc':
+        elif k in ('rc', 'rcg'):
             try:
                 o = self.obj(st[1])
-                o._p_activate()
+                if k == 'rc':
+                    o._p_activate()
+                # ('rcg': the dependency is declared before the object is
+                # looked at for the first time - it may still be a ghost)
                 self.conn.readCurrent(o)
+                o._p_activate()
                 w.log('readcurrent', self.tid, self.txn, st[1], o._p_serial)
             except Exception as e:      # noqa: B902
                 w.log('read-error', self.tid, self.txn, st[1],
